@@ -123,7 +123,7 @@ def decoder():
     logger = logging.getLogger("decoder")
     byte = yield  # Fetch first byte
     while True:
-        if byte == b"$":
+        if byte in (b"$", b"%"):  # packet or notification frame
             res = bytearray()
             res.extend(byte)
             while True:
